@@ -14,6 +14,13 @@
 
 #include <urcu/uatomic.h>
 #include <urcu-pointer.h>
+#ifdef URCU_VERIF
+#include <urcu/verif.h>
+#else
+#ifndef urcu_verif_point
+#define urcu_verif_point(id, ctx) do { } while (0)
+#endif
+#endif
 
 #ifdef __cplusplus
 extern "C" {
@@ -70,6 +77,7 @@ int _cds_lfs_push_rcu(struct cds_lfs_stack_rcu *s,
 		 * stores to node before publication.
 		 */
 		cmm_emit_legacy_smp_mb();
+		urcu_verif_point(URCU_VP_LFS_PUSH_BEFORE_CMPXCHG, s);
 		head = uatomic_cmpxchg_mo(&s->head, old_head, node,
 					CMM_SEQ_CST, CMM_SEQ_CST);
 		if (old_head == head)
@@ -96,12 +104,14 @@ _cds_lfs_pop_rcu(struct cds_lfs_stack_rcu *s)
 		if (head) {
 			struct cds_lfs_node_rcu *next = rcu_dereference(head->next);
 
+			urcu_verif_point(URCU_VP_LFS_POP_BEFORE_CMPXCHG, s);
 			if (uatomic_cmpxchg_mo(&s->head, head, next,
 						CMM_SEQ_CST, CMM_SEQ_CST) == head) {
 				cmm_emit_legacy_smp_mb();
 				return head;
 			} else {
 				/* Concurrent modification. Retry. */
+				urcu_verif_point(URCU_VP_LFS_POP_RETRY, s);
 				continue;
 			}
 		} else {
